@@ -20,6 +20,11 @@ def ratOfInt (z : Int) : Rat := Rat.ofInt z
 def pow2 (y : Rat) : Rat :=
   if 0 ≤ y.num then ratOfInt ((2 : Int) ^ y.num.toNat) else 1 / ratOfInt ((2 : Int) ^ (-y.num).toNat)
 
+def resStr {α : Type} (f : α → String) : LoopRes α → String
+  | .ok v => f v
+  | .assertFail => "assert"
+  | .outOfDraws => "none"
+
 def ratStr (q : Rat) : String := s!"{q.num}/{q.den}"
 
 def fnR (xs : List Int) : Nat → Rat :=
@@ -55,20 +60,20 @@ def minOpt : List Rat → Option Rat
     | none => some a
     | some b => some (if a ≤ b then a else b)
 
-/-- `logits.process n Tnum Tden k pnum pden clipOn | x[n] | mask[n] | clip[n] or empty | kth or empty |
+/-- `logits.process n Tnum Tden k pnum pden clipOn maskLogits | x[n] | mask[n] | clip[n] or empty | kth or empty |
 σ[n] or empty | a s or empty`.
 Reply: validity of the oracle inputs, support bits, probabilities, the smallest distance of a
 cumulative probability to the top-p threshold (`margin`, `none` when the filter is off), and for the
 observed argmax `a` / sampled index `s`: their validity and the results of `greedy` / `sampleLoop`. -/
 def process (toks : List String) : Option String := do
   let [hd, xs, ms, cs, kths, sigs, as] ← parseSections toks | none
-  let [n, tn, td, k, pn, pd, clipOn] := hd | none
+  let [n, tn, td, k, pn, pd, clipOn, ml] := hd | none
   let n := n.toNat
   if xs.length ≠ n ∨ ms.length ≠ n ∨ td = 0 ∨ pd = 0 then none
   let cfg : Cfg Rat := { temp := ratOfInt tn / ratOfInt td, topK := k.toNat,
                          topP := ratOfInt pn / ratOfInt pd, clipOn := clipOn != 0 }
   let x := fnR xs
-  let mask := fnBA ms
+  let mask : Nat → Bool := if ml != 0 then fnBA ms else fun _ => true
   let tab := (clipTab xs cs).eraseDups
   let clip := clipLookup tab
   let x3 := (pre clip cfg n x mask).get
@@ -82,9 +87,9 @@ def process (toks : List String) : Option String := do
   let x4 := (afterK clip cfg n x mask kth).get
   let sigA : Array Nat := (if sigs.isEmpty then autoSigma n x4 else toNats sigs).toArray
   let σ : Nat → Nat := fun i => sigA.getD i 0
-  let out := processLogits pow2 clip cfg n x mask kth σ
+  let out := processLogitsOpt (ml != 0) pow2 clip cfg n x (fnBA ms) kth σ
   let kthOk := cfg.topK = 0 ∨ KthValid n cfg.topK x3 kth
-  let toppOn := ¬ (cfg.topP ≤ 0 ∨ 1 ≤ cfg.topP)
+  let toppOn := toppOff cfg.topP = false
   let sortOk := ¬ toppOn ∨ SortValid n x4 σ
   let margin : String :=
     if toppOn then
@@ -97,8 +102,10 @@ def process (toks : List String) : Option String := do
     | [a, sa] =>
       let a := a.toNat
       let sa := sa.toNat
-      let r := match greedy mask a with | some b => toString b | none => "none"
-      let rs := match sampleLoop mask [sa] with | some b => toString b | none => "none"
+      let r := if ml != 0 then (match greedy mask a with | some b => toString b | none => "none")
+               else (match (stepGreedyNoMask pow2 clip cfg n x (fnBA ms) kth σ a).2 with | some b => toString b | none => "none")
+      let rs := if ml != 0 then resStr toString (sampleLoop mask [sa])
+                else resStr toString (stepSamplingNoMask pow2 clip cfg n x (fnBA ms) kth σ [sa]).2
       s!"gvalid={bit (decide (GreedyValid n out.lg a))} greedy={r} svalid={bit (decide (SampleValid n out.prob sa))} sample={rs}"
     | _ => "gvalid=- greedy=- svalid=- sample=-"
   pure s!"kthvalid={bit (decide kthOk)} sortvalid={bit (decide sortOk)} kept={maskBits n out.kept} probs={",".intercalate ((List.range n).map (fun j => ratStr (out.prob j)))} margin={margin} kth={kth} {g}"
@@ -118,8 +125,15 @@ def greedyOp (toks : List String) : Option String := do
 def sampleOp (toks : List String) : Option String := do
   let [hd, ms, ds] ← parseSections toks | none
   let [_n] := hd | none
-  let r := match sampleLoop (fnB ms) (toNats ds) with | some b => toString b | none => "none"
-  pure s!"res={r}"
+  pure s!"res={resStr toString (sampleLoop (fnB ms) (toNats ds))}"
+
+/-- `logits.decode isGreedy n | mask[n] | a | draws` : `decode_logprobs` with decode type "greedy" / "sampling" -/
+def decodeOp (toks : List String) : Option String := do
+  let [hd, ms, as, ds] ← parseSections toks | none
+  let [g, _n] := hd | none
+  let a := (as.getD 0 0).toNat
+  let ty := if g != 0 then "greedy" else "sampling"
+  pure s!"res={resStr toString (decodeLogprobs ty (fnB ms) a (toNats ds))}"
 
 def chunks (n : Nat) (xs : List Int) : Nat → List (List Int)
   | 0 => []
@@ -131,8 +145,7 @@ def sampleBOp (toks : List String) : Option String := do
   let [b, n, r] := hd | none
   let masks := (chunks n.toNat ms b.toNat).map fnB
   let draws := (chunks b.toNat ds r.toNat).map toNats
-  let res := match sampleLoopB masks draws with | some v => natsStr v | none => "none"
-  pure s!"res={res}"
+  pure s!"res={resStr natsStr (sampleLoopB masks draws)}"
 
 open Rl4co.Spec.Decode in
 /-- `logits.spec n k pticks tol one | mask[n] | score[n] | kept[n] | p[n] | q[n] or empty |
@@ -154,13 +167,15 @@ def specOp (toks : List String) : Option String := do
   let tc := decide (TopkCard n k.toNat score kept)
   let tg := decide (TopkGeFeasible n k.toNat mask kept)
   let tm := if qs.isEmpty then "-" else bit (decide (ToppMass n (r qs) kept (ratOfInt pt / ratOfInt one) tolR))
+  let tt := if qs.isEmpty || pt ≤ 0 then "-" else
+    bit (decide (ToppTight n (r qs) kept (ratOfInt pt / ratOfInt one) tolR))
   let cl := if ps'.isEmpty then "-" else bit (decide (Close n p (r ps') tolR))
   let gr := match ga with | [] => "-" | a :: _ => bit (decide (GreedyOk n mask p a.toNat))
   let sm := match sa with | [] => "-" | a :: _ => bit (decide (SampleOk n mask kept a.toNat))
-  pure s!"isdist={bit isd} maskedzero={bit mz} argmax={bit ak} topkcard={bit tc} topkge={bit tg} toppmass={tm} close={cl} greedy={gr} sample={sm}"
+  pure s!"isdist={bit isd} maskedzero={bit mz} argmax={bit ak} topkcard={bit tc} topkge={bit tg} toppmass={tm} tight={tt} close={cl} greedy={gr} sample={sm}"
 
 def handlers : List (String × (List String → Option String)) :=
   [("logits.process", process), ("logits.greedy", greedyOp), ("logits.sample", sampleOp),
-   ("logits.sampleB", sampleBOp), ("logits.spec", specOp)]
+   ("logits.sampleB", sampleBOp), ("logits.decode", decodeOp), ("logits.spec", specOp)]
 
 end Rl4co.Driver.Logits
